@@ -80,7 +80,8 @@ InitState ==
    conn |-> [c \in ConnIds |-> NoConnRec], nconn |-> 0,
    backlog |-> <<>>,                       \* inbound sockets not yet accepted (connection ids reserved by the env)
    connections |-> <<>>, peerSockets |-> <<>>, socketPeers |-> {}, halfReady |-> {},
-   peer |-> [p \in Peers |-> [conn |-> 0, reason |-> 0, lastConnect |-> -1, lastDisc |-> -1]],
+   peer |-> [p \in Peers |-> [conn |-> 0, reason |-> 0, lastConnect |-> -1, lastDisc |-> -1,
+                             cnt |-> <<0, 0, 0, 0, 0, 0, 0, 0>>]],   \* Peer.counters: cer cea dwr dwa dpr dpa requests answers
    peerWait |-> <<>>,                      \* sequence of [h, ids]: _peer_waiting_answer in insertion order
    appWait |-> {},                         \* _app_waiting_answer: set of [hbh, e2e, app]
    originWait |-> {},                      \* _origin_waiting_answer: set of [hbh, e2e, oh]
@@ -352,7 +353,10 @@ SendRequest(S, k, a, r, timeout, pick) ==
   IF us = <<>> THEN Emit([S EXCEPT !.e2e = @ + 1],             \* the end-to-end id is drawn before routing
                          [ev |-> "req_result", k |-> k, r |-> "NotRoutable", hbh |-> 0, e2e |-> 0])
   ELSE LET S0 == IF Len(us) > 1 THEN Emit(S, [ev |-> "select", a |-> a, offered |-> us]) ELSE S
-           p  == IF Len(us) > 1 THEN (IF pick = "last" THEN us[Len(us)] ELSE us[1]) ELSE us[1]
+           \* "default": select_least_used_peer = min(peers, key = counters.requests), the first of the least in list order
+           least == CHOOSE i \in 1..Len(us) : (\A j \in 1..Len(us) : S.peer[us[i]].cnt[7] <= S.peer[us[j]].cnt[7]) /\
+                                              (\A j2 \in 1..(i - 1) : S.peer[us[j2]].cnt[7] > S.peer[us[i]].cnt[7])
+           p  == IF Len(us) > 1 THEN (IF pick = "last" THEN us[Len(us)] ELSE IF pick = "default" THEN us[least] ELSE us[1]) ELSE us[1]
            c  == S.peer[p].conn
            e2e == S.e2e + 1
            hbh == NextHbh(S, c)
@@ -379,12 +383,28 @@ IsDup(S, m) == LET i == SaIdx(S, m.oh) IN
 CeaMalformed(m) == m.cmd = "CE" /\ ~m.req /\ m.rc = 2001 /\ m.oh = ""
 CerMalformed(m) == m.cmd = "CE" /\ m.req /\ m.oh = ""       \* unreachable with validation on
 
+\* Node._update_peer_counters: the message kinds received from a peer, counted on the Peer the connection belongs to
+\* *when the message is dispatched* (a first CER on an inbound connection finds no peer yet and is not counted; messages
+\* rejected by validation or as duplicates are not counted).  Peer.counters.requests is what the default selection
+\* callback select_least_used_peer compares.
+CntIdx(m) == CASE m.cmd = "CE" -> IF m.req THEN 1 ELSE 2
+               [] m.cmd = "DW" -> IF m.req THEN 3 ELSE 4
+               [] m.cmd = "DP" -> IF m.req THEN 5 ELSE 6
+               [] OTHER        -> 0
+Count(S, c, m) ==
+  LET p == PeerOf(S, c)
+      i == CntIdx(m)
+      t == IF m.req THEN 7 ELSE 8
+  IN IF p = "" THEN S
+     ELSE [S EXCEPT !.peer[p].cnt = [j \in 1..8 |-> IF j = i \/ j = t THEN @[j] + 1 ELSE @[j]]]
+
 ReceiveMessage(S, c, m) ==
   LET S0 == Emit(S, [ev |-> "dispatch", c |-> c, m |-> m])
-      S1 == IF HasOriginAttr(m) /\ (m.req \/ "F19b" \in Pinned) THEN OwSet(S0, m) ELSE S0
+      Sa == IF HasOriginAttr(m) /\ (m.req \/ "F19b" \in Pinned) THEN OwSet(S0, m) ELSE S0
       err(St, rc) == SendMessage(St, c, Answer(m, rc))
-  IN IF m.req /\ NodeCfg.validate /\ MissingAvps(m) THEN err(S1, 5005)
-     ELSE IF IsDup(S1, m) THEN err(S1, 5012)
+      S1 == Count(Sa, c, m)           \* only used behind the validation and duplicate tests
+  IN IF m.req /\ NodeCfg.validate /\ MissingAvps(m) THEN err(Sa, 5005)
+     ELSE IF IsDup(Sa, m) THEN err(Sa, 5012)
      ELSE CASE m.cmd = "CE" /\ m.req  -> IF CerMalformed(m) THEN err(S1, 5012) ELSE ReceiveCer(S1, c, m)
             [] m.cmd = "CE" /\ ~m.req -> IF CeaMalformed(m) THEN (IF "F07" \in Pinned THEN err(S1, 5012) ELSE S1)
                                          ELSE ReceiveCea(S1, c, m)
